@@ -46,7 +46,7 @@ Definition w1_frames : list (img * Z) :=
 Definition w1_played (fx : fixes) : option show :=
   match new_encoder 2 2 lossless_default with
   | Some st0 =>
-      match close false (run_frames fx (fun _ => o_none) st0 w1_frames) with
+      match close false false (run_frames fx (fun _ => o_none) st0 w1_frames) with
       | Some out => Some (playback id_img id_img fx out)
       | None => None
       end
@@ -75,9 +75,9 @@ Theorem anim_lossless_roundtrip_refuted_blend :
 Proof.
   intros Hs.
   destruct (new_encoder 2 2 lossless_default) as [st0|] eqn:Hn; [|vm_compute in Hn; discriminate].
-  destruct (close false (run_frames pinned (fun _ => o_none) st0 w1_frames)) as [out|] eqn:Hc;
+  destruct (close false false (run_frames pinned (fun _ => o_none) st0 w1_frames)) as [out|] eqn:Hc;
     [|vm_compute in Hn; injection Hn as <-; vm_compute in Hc; discriminate].
-  specialize (Hs id_img id_img 2 2 lossless_default w1_frames (fun _ => o_none) false st0 out
+  specialize (Hs id_img id_img 2 2 lossless_default w1_frames (fun _ => o_none) false false st0 out
                  id_codec_lossless).
   assert (Hd : wf_canvas_dims 2 2) by (unfold wf_canvas_dims, max_canvas_dimension; lia).
   assert (Ho : lossless_opts lossless_default)
@@ -113,7 +113,7 @@ Definition w2_oracle (n : nat) : orc := match n with 3%nat => o_bg | _ => o_none
 Definition w2_last (fx : fixes) : option (canvas * Z) :=
   match new_encoder 4 4 lossless_default with
   | Some st0 =>
-      match close false (run_frames fx w2_oracle st0 w2_frames) with
+      match close false false (run_frames fx w2_oracle st0 w2_frames) with
       | Some out => Some (last (playback id_img id_img fx out) ([], 0))
       | None => None
       end
@@ -147,9 +147,9 @@ Theorem anim_lossless_roundtrip_refuted_filler :
 Proof.
   intros Hs.
   destruct (new_encoder 4 4 lossless_default) as [st0|] eqn:Hn; [|vm_compute in Hn; discriminate].
-  destruct (close false (run_frames (mkfixes true false false) w2_oracle st0 w2_frames)) as [out|] eqn:Hc;
+  destruct (close false false (run_frames (mkfixes true false false) w2_oracle st0 w2_frames)) as [out|] eqn:Hc;
     [|vm_compute in Hn; injection Hn as <-; vm_compute in Hc; discriminate].
-  specialize (Hs id_img id_img 4 4 lossless_default w2_frames w2_oracle false st0 out
+  specialize (Hs id_img id_img 4 4 lossless_default w2_frames w2_oracle false false st0 out
                  id_codec_lossless).
   assert (Hd : wf_canvas_dims 4 4) by (unfold wf_canvas_dims, max_canvas_dimension; lia).
   assert (Ho : lossless_opts lossless_default)
@@ -185,9 +185,9 @@ Theorem anim_alpha_preserved_refuted : ~ anim_alpha_preserved_statement pinned.
 Proof.
   intros Hs.
   destruct (new_encoder 1 1 lossy_default) as [st0|] eqn:Hn; [|vm_compute in Hn; discriminate].
-  destruct (close false (run_frames pinned (fun _ => o_none) st0 w3_frames)) as [out|] eqn:Hc;
+  destruct (close false false (run_frames pinned (fun _ => o_none) st0 w3_frames)) as [out|] eqn:Hc;
     [|vm_compute in Hn; injection Hn as <-; vm_compute in Hc; discriminate].
-  specialize (Hs id_img id_img 1 1 lossy_default w3_frames (fun _ => o_none) false st0 out
+  specialize (Hs id_img id_img 1 1 lossy_default w3_frames (fun _ => o_none) false false st0 out
                  id_codec_lossless id_codec_alpha_exact).
   assert (Hd : wf_canvas_dims 1 1) by (unfold wf_canvas_dims, max_canvas_dimension; lia).
   assert (Ho : alpha_opts lossy_default)
